@@ -1,6 +1,15 @@
 from ..runner import Harness, Spec
 from ..translate import go_translator
 
+import os
+import sys
+
+# the race-detector run of the concurrency cases costs a -race build of internal/e2e: thorough tier only
+_THOROUGH = "thorough" in sys.argv or os.environ.get("VERIF_TIER") == "thorough"
+_RACE = [Harness(name="concurrency-race", module="internal/e2e", pkg="internal/e2e",
+                 files={"zz_verif_c15_test.go": "c15/hop_test.go", "zz_verif_common_test.go": "c15/common_test.go"}, common=False,
+                 test="TestVerifC15Conc", driver="drv_c15", n={"quick": 6, "thorough": 12}, timeout_s=1500, race=True)] if _THOROUGH else []
+
 SPEC = Spec(
     pid="C15",
     lean_modules=["OtelVerif.Props.C15"],
@@ -9,16 +18,16 @@ SPEC = Spec(
         Harness(name="hop", module="internal/e2e", pkg="internal/e2e",
                 files={"zz_verif_c15_test.go": "c15/hop_test.go", "zz_verif_common_test.go": "c15/common_test.go"}, common=False,
                 test="TestVerifC15", driver="drv_c15", n={"quick": 1500, "thorough": 20000}, timeout_s=1500),
-    ],
+    ] + _RACE,
     rule="one long-lived pair of real OTLP receivers (gRPC+HTTP; one with a server-side authenticator) with a scripted consumer; per case "
-         "one hop: signal (logs/traces/metrics) x transport (gRPC, HTTP/proto, HTTP/JSON) x every compression the exporter offers x "
+         "one hop: signal (logs/traces/metrics/profiles) x transport (gRPC, HTTP/proto, HTTP/JSON) x every compression the exporter offers x "
          "consumer outcome (nil, plain, permanent, explicit gRPC status 1..16 and out-of-range codes, optionally wrapped, with/without "
          "RetryInfo of 0, 1ns, 500ms, 999999999ns, 1s, 1.5s, 2s, 90s, random) x items (0 incl. empty shells, 1, 2, 5, 17) x auth "
          "(off/good/bad); observed: wire status via a plain client, the real exporter's returned error classified "
          "(permanent/throttle delay/retryable), consumer invocations, byte equality of the payload at the sink. 20% raw malformed "
          "requests (wrong method, content types, undecodable proto/JSON, unknown path, bad Content-Encoding, combinations, gRPC "
          "garbage frames). Corpus first: Retry-After witnesses, errorHandler witnesses, all 17 codes x 2 transports x +-RetryInfo. "
-         "non-trivial = non-nil outcome, compressed transport with items, or raw request; distinct = sha1 of op lines.",
+         "CONCURRENCY stream (monitor; 3 corpus cases + 1 in 500): against one receiver, at once: two real OTLP/HTTP JSON exporters with very big bodies (12-20k items, slow to decode, so the handler is preempted while decoding), 2-5 small real exporters (gRPC, HTTP proto/JSON, all compressions, all 4 signals) in series, and a swarm of 6 plain HTTP clients re-posting a big well-formed protobuf request (2) and an 8-12 MiB non-protobuf body that must get 400 (4) for as long as the exporters are busy; GOMAXPROCS 1/2/4/default (schedule exploration); oracle: every well-formed request acknowledged, every junk one 400, multiset of payloads at the consumer == multiset sent; thorough repeats such cases under -race. non-trivial = non-nil outcome, compressed transport with items, or raw request; distinct = sha1 of op lines.",
     trusted_base=[
         "Lean 4.33.0 kernel; axioms per theorem listed under axioms_per_theorem (subset of propext, Classical.choice, Quot.sound)",
         "translator translators/cmd/otlptables (go/ast): switch tables of GetHTTPStatusCodeFromStatus, NewStatusFromMsgAndHTTPCode, "
@@ -36,6 +45,6 @@ SPEC = Spec(
     ],
     assumptions=[
         "an error never carries gRPC code 0 (status.Err() of OK is nil); RetryInfo delays are non-negative",
-        "queue and retry of the exporters are disabled so the push error is what ConsumeX returns; profiles signal not exercised",
+        "queue and retry of the exporters are disabled so the push error is what ConsumeX returns",
     ],
 )
